@@ -107,7 +107,7 @@ def generate(seed, tier):
                 ops.append({"op": "index", "a": rng.getrandbits(16), "sl": [v(), v(), step]})
         elif k == "compare":
             ops.append({"op": "compare", "n": rng.choice([1, 2, 5, 16, 33, 128]), "dseed": rng.getrandbits(32),
-                        "dom": rng.choice(["nonneg", "nonneg", "real", "complex"]), "noise": rng.random() < 0.5,
+                        "dom": rng.choice(["nonneg", "nonneg", "nonneg_int", "real", "complex"]), "noise": rng.random() < 0.5,
                         "thr": rng.choice(["pyfloat", "pyint", "npfloat", "list", "array", "len1"]),
                         "cmp": rng.choice([">", "<"]), "tie": rng.random() < 0.2})
         elif k == "bad_new":
@@ -445,7 +445,11 @@ class Machine:
     def op_compare(self, op):
         n, dom = op["n"], op["dom"]
         rs = np.random.RandomState(op["dseed"])
-        if dom == "nonneg":
+        if dom == "nonneg_int":        # integer-typed samples compared with fractional thresholds
+            sig = rs.randint(0, 4, n).astype(np.int64 if n % 2 else np.int32)
+            noise = rs.randint(0, 2, n).astype(sig.dtype) if op["noise"] else None
+            dom = "nonneg"
+        elif dom == "nonneg":
             sig = np.round(rs.uniform(0, 2, n), 2)
             noise = np.round(rs.uniform(0, 0.3, n), 2) if op["noise"] else None
         elif dom == "real":
@@ -457,12 +461,12 @@ class Machine:
         total = sig if noise is None else sig + noise
         tk = op["thr"]
         if tk in ("list", "array"):
-            thr_arr = np.round(rs.uniform(0, 2, n), 2)
+            thr_arr = np.round(rs.uniform(0, 2, n), 2) if op["dom"] != "nonneg_int" else rs.randint(0, 8, n) / 2.0
             if op.get("tie") and dom == "nonneg":
                 thr_arr[:: 2] = total[:: 2].real
             thr = thr_arr.tolist() if tk == "list" else thr_arr
         else:
-            t = float(np.round(rs.uniform(0, 2), 2))
+            t = float(np.round(rs.uniform(0, 2), 2)) if op["dom"] != "nonneg_int" else float(rs.randint(0, 8) / 2.0)
             if op.get("tie") and dom == "nonneg":
                 t = float(total[0].real)
             thr_arr = np.full(n, t)
